@@ -8,8 +8,10 @@ from vf.spec import AnyT, Ann, Coll, Ctx, F, Lit, MapT, ObjectT, Prim, Program, 
 PROP = "C13"
 SHARDS = {"quick": 8, "thorough": 16}
 TIME_CAP = {"quick": 70, "thorough": 900}
-REQUIRED = ["union_accept", "union_reject", "programs", "node:UnionByTypeMethod", "node:UnionMethod", "node:OptionalMethod", "coerced_cases",
-            "discriminated_accept", "discriminated_reject_tag", "discriminated_serialize", "tagged_union_cases", "same_json_type_pairs", "unsupported_member_unions"]
+REQUIRED = ["union_accept", "union_reject", "programs", "coerced_cases", "discriminated_accept", "discriminated_reject_tag", "discriminated_serialize", "tagged_union_cases", "same_json_type_pairs", "unsupported_member_unions"]
+# compiled-tree node classes this workload is expected to reach: reported as coverage gaps when missing, never a verdict
+# (a renamed internal class must not turn into an alarm)
+EXPECTED_NODES = ["node:UnionByTypeMethod", "node:UnionMethod", "node:OptionalMethod"]
 RULE = ("(1) all ordered pairs of the 21 small atoms + depth-1 types as Union alternatives (sliced per shard; thorough: all) and random unions of 2..4 alternatives "
         "(incl. two objects, list vs tuple, int vs float vs bool, str vs Literal/Enum, unsupported members, constraints on the union) x atoms/valid/mutant data, strict and coerce=True; "
         "(2) discriminated unions (Annotated and inherited; default / explicit / partial mappings; alternatives declaring the discriminator field or not; dataclass and TypedDict) "
